@@ -289,3 +289,40 @@ V("C10-benign-positional", "C10", "mask forwarded positionally", CORE, expect="s
                     virtual=virtual, sensitive_mask=sensitive_mask
                 )""",
   new="                value = field_value.to_tree(virtual, sensitive_mask)")
+
+# ------------------------------------------------------------------------------------------ C12
+V("C12-default-not-marked", "C12", "_set_default_value stores without marking", CORE,
+  "        self._data[key] = value\n        self._default_value_keys.add(key)", "        self._data[key] = value",
+  expect_rule="pairing @ Config._set_default_value")
+V("C12-subconfig-not-unmarked", "C12", "sub-config assignment keeps the default mark", CORE,
+  "        self._data[key] = value\n        self._default_value_keys.discard(key)\n        return value",
+  "        self._data[key] = value\n        return value", expect_rule="pairing @ Config._set_value")
+V("C12-setdefault-direct-data", "C12", "ListField.__setdefault__ writes _data directly", LIST,
+  "        cfg._set_default_value(self._key, default)", "        cfg._data[self._key] = default", expect_rule="ListField.__setdefault__")
+V("C12-default-cached", "C12", "callable default evaluated once and cached on the field", CORE,
+  "        return self._default() if callable(self._default) else self._default",
+  "        if callable(self._default):\n            self._default = self._default()\n        return self._default",
+  expect_rule="default.per-access")
+V("C12-raw-default-read", "C12", "DictField.__setdefault__ reads _default (callable never evaluated)", DICT,
+  "        default = self.default\n        if isinstance(default, dict) and self._use_proxy:",
+  "        default = self._default\n        if isinstance(default, dict) and self._use_proxy:", expect_rule="default.raw-read")
+V("C12-ctor-skips-empty-schema", "C12", "constructor skips defaults for some fields", CORE,
+  "            if key in data:\n                continue\n\n            field.__setdefault__(self)",
+  "            if key in data or isinstance(field, Schema) and not field._fields:\n                continue\n\n            field.__setdefault__(self)",
+  expect_rule="ctor.defaults-for-the-rest")
+V("C12-defined-wrong-set", "C12", "is_value_defined consults _data instead of the mark set", SUP,
+  "    return key not in config._default_value_keys", "    return key in config._data", expect_rule="defined.is-complement")
+V("C12-field-not-unmarked", "C12", "accepted field assignment keeps the default mark", CORE,
+  "                field.__setval__(self, value)\n                self._default_value_keys.discard(key)\n                return value",
+  "                field.__setval__(self, value)\n                return value", expect_rule="pairing @ Field.__setval__")
+V("C12-default-then-unmark", "C12", "ChallengeField default reported as user-defined", SEC,
+  "            raise TypeError(\"invalid default value: %r\" % self.default)\n        cfg._set_default_value(self._key, val)",
+  "            raise TypeError(\"invalid default value: %r\" % self.default)\n        cfg._set_default_value(self._key, val)\n        cfg._default_value_keys.discard(self._key)",
+  expect_rule="polarity.default-route")
+V("C12-reset-all", "C12", "reset_value resets every field of the sub-configuration", SUP,
+  "    field.__setdefault__(config)",
+  "    for _, other in config._schema._fields.items():\n        other.__setdefault__(config)", expect_rule="reset.")
+V("C12-mark-wrong-key", "C12", "default mark recorded under a different key", CORE,
+  "        self._default_value_keys.add(key)", "        self._default_value_keys.add(key.lower())", expect_rule="pairing.same-key")
+V("C12-benign-mark-first-param", "C12", "_set_default_value uses update([key])", CORE, expect="silent",
+  old="        self._default_value_keys.add(key)", new="        self._default_value_keys.update([key])")
